@@ -212,6 +212,7 @@ type hist struct {
 	loopVar int   // p_loop variant
 	feat    map[string]bool
 
+	viewExcl   int64 // id excluded by the current definition of vw_agg (-1: none)
 	lastLoop   *loopCall
 	hasIndex   map[string]bool
 	lastChange string
@@ -282,7 +283,7 @@ func (h *hist) ddl(sess int, q string, trigger bool) bool {
 
 func newHist(r *core.Run, i int) *hist {
 	rnd := r.Rand("hist", i)
-	h := &hist{r: r, rnd: rnd, caseNo: i, eng: core.NewEng("d"), txOwner: -1, nextID: 100, feat: map[string]bool{}, freshVer: -1, hasIndex: map[string]bool{}, lastChange: "setup"}
+	h := &hist{r: r, rnd: rnd, caseNo: i, eng: core.NewEng("d"), txOwner: -1, nextID: 100, feat: map[string]bool{}, freshVer: -1, hasIndex: map[string]bool{}, lastChange: "setup", viewExcl: -1}
 	ns := 1 + rnd.Intn(3)
 	for k := 0; k < ns; k++ {
 		h.sess = append(h.sess, &sessState{s: h.eng.NewSess(), idx: k, prepared: map[int]bool{}, apiPrepared: map[int]bool{}})
@@ -577,9 +578,10 @@ func (h *hist) stepDDL(sess int) {
 		}
 		h.feat["ddl:truncate"] = true
 	default:
-		nm := fmt.Sprintf("vw_tmp%d", len(h.m.ddl))
-		h.ddl(sess, "CREATE OR REPLACE VIEW vw_agg AS SELECT v, COUNT(*) AS c FROM t WHERE id <> "+fmt.Sprint(rnd.Intn(4))+" GROUP BY v", false)
-		_ = nm
+		ex := int64(rnd.Intn(4))
+		if h.ddl(sess, "CREATE OR REPLACE VIEW vw_agg AS SELECT v, COUNT(*) AS c FROM t WHERE id <> "+fmt.Sprint(ex)+" GROUP BY v", false) {
+			h.viewExcl = ex
+		}
 		h.feat["ddl:replace-view"] = true
 	}
 }
@@ -834,6 +836,18 @@ func (h *hist) stepQuery(sess int) {
 				"model_t": h.m.dump("t"), "model_u": h.m.dump("u"), "plan": ss.s.Plan(inl)}))
 		h.dead = true
 		return
+	}
+	if want, ok := h.refEval(q.name, p); ok && got.Err == "" {
+		h.r.Eval(1)
+		if !core.SameStrings(got.Rows, want) {
+			sig := fmt.Sprintf("result-differs-from-reference-model:%s:%s:%s", q.name, mode, h.contextClass())
+			h.r.Violation(sig, h.witness("query result differs from the direct evaluation of the query over the reference model (the fresh engine agrees with the used one: a wrong-but-fresh result or a cache shared across engines)",
+				map[string]any{"query": inl, "object": q.sql, "mode": mode, "session": sess, "reference": want, "engine": got.Rows, "fresh_engine": ref.Rows,
+					"model_t": h.m.dump("t"), "model_u": h.m.dump("u"), "model_plog": h.m.dump("plog"), "plan": ss.s.Plan(inl)}))
+			h.dead = true
+			return
+		}
+		h.r.Count("reference-evaluations", 1)
 	}
 	if mode == "text-twice" {
 		res2 := ss.s.Exec(inl)
